@@ -5,7 +5,10 @@
 (* before the write completed, and again `later` > one tick afterwards.    *)
 (* If the entry's deadline t0 + ttl lies more than one tick before that    *)
 (* last run, the entry must no longer be counted and its Expiration event  *)
-(* must have been delivered exactly once.                                  *)
+(* must have been delivered exactly once.  Read races (op read-x): a read    *)
+(* that only extends the deadline is parked between its clock sample and   *)
+(* the store while the deadline passes and maintenance runs; the same      *)
+(* requirements hold afterwards, and a sized cache stays within its bound. *)
 (***************************************************************************)
 EXTENDS Integers, Sequences, FiniteSets, TLC, Json, IOUtils
 Recs == ndJsonDeserialize(IOEnv.VERIF_TRACE)
@@ -18,6 +21,8 @@ Check(r, idx) ==
     \o (IF r.hang = 0 /\ r.mustsweep = 1 /\ r.est # r.sc.warmlive THEN <<F(idx, "C13.still_counted", <<r.est, r.sc>>)>> ELSE <<>>)
     \o (IF r.hang = 0 /\ r.mustsweep = 1 /\ r.expired # 1 THEN <<F(idx, "C13.expiration_not_reported", <<r.expired, r.other, r.sc>>)>> ELSE <<>>)
     \o (IF r.hang = 0 /\ r.visible = 1 /\ r.deadlinepassed = 1 THEN <<F(idx, "C13.visible_after_deadline", r.sc)>> ELSE <<>>)
+    \* a read racing the sweep (it only extends the deadline): a sized cache filled right after the race stays within its maximum
+    \o (IF r.hang = 0 /\ r.sc.sized = 1 /\ r.sc.max > 0 /\ r.live > r.sc.max THEN <<F(idx, "C04.bound_after_read_race", <<r.live, r.sc>>)>> ELSE <<>>)
 Init == i = 1 /\ dev = <<>>
 Next == \/ /\ i <= Len(Recs)
            /\ dev' = dev \o Check(Recs[i], i)
